@@ -608,7 +608,8 @@ class HoldUpSuite(PairedSuite):
                             item[0] = fstr(Fraction(item[0]) + total)
                     b_sc["events"] = sorted_events(b_sc["events"])
             yield {"a": a, "b": b_sc, "pick": "b" if i % 2 else "a",
-                   "oracle": dict(orc, two=two, speed=speed, holdups=[[hb[jj][0], hb[jj][1], fstr(d)] for jj, d in holdups])}
+                   "oracle": dict(orc, two=two, speed=speed, holdups=[[hb[jj][0], hb[jj][1], fstr(d)] for jj, d in holdups],
+                                  look2=[fstr(look2), fstr(look2 + total)] if two else None)}
 
     def cases(self, rng, tier):
         yield from self.scenarios(rng, tier)
@@ -647,6 +648,28 @@ class HoldUpSuite(PairedSuite):
             if not (max(d, 0) - TOL - slack <= shift <= max(d, 0) + k * Fraction(1, 100) + TOL + slack):
                 return (f"after hold-ups totalling {float(d):.3f}s, the strike of row {r} place {p} came "
                         f"{float(shift):.4f}s later than in the punctual run")
+        return None
+
+
+    def oracle_C13(self, case, out):
+        """inertia 1, waiting on: a strike that was late in one touch holds Wheatley up there and then; in the NEXT
+        touch, where nobody is waited for, it must have left no trace (judged on the two-touch sessions)."""
+        return self.oracle_C14(case, out) if case["oracle"].get("two") else None
+
+    def oracle_C15(self, case, out):
+        """second touch of the two-touch sessions: Wheatley rings the first bell of the opening row, so its first strike
+        comes exactly 3 s after that Look to - whatever hold-ups the earlier touch saw."""
+        if not case["oracle"].get("two") or "trace" not in out["a"] or "trace" not in out["b"]:
+            return None
+        for nm, look in zip("ab", case["oracle"]["look2"]):
+            look = Fraction(look)
+            later = [x for x in wheatley_strikes(out[nm]) if x[3] >= look]
+            if not later:
+                return f"second touch ({nm}): no strike at all after its Look to"
+            r, p, b, t = later[0]
+            if (r, p) != (0, 0) or abs(t - (look + 3)) > TOL:
+                return (f"second touch ({'punctual run' if nm == 'a' else 'run with hold-ups in the first touch'}): Wheatley leads, "
+                        f"its first strike (row {r} place {p}) came {float(t - look):.4f}s after Look to instead of 3 s")
         return None
 
 
